@@ -180,9 +180,8 @@ func workerMain() {
 						predicted = true
 					}
 				}
-				if o.nilLiteral {
-					predicted = true
-				}
+				// (a nil literal item alone is legal data and predicts nothing: only the observed
+				// panic in the handler variant stands for the fatal one in the bare variant)
 			}
 			if verbose {
 				if rep.Trace == nil {
